@@ -17,6 +17,7 @@ import Golib.Proof.C15Stream
 import Golib.Proof.C15B64Len
 import Golib.Proof.C15IP
 import Golib.Proof.C15Facts
+import Golib.Proof.C15Trans
 
 namespace Golib.C15
 
@@ -371,5 +372,31 @@ theorem c15_ipv4_roundtrip (x : Nat) (hx : x < 2 ^ 32) : ipv4ToLong (longToIPv4 
 
 example : longToIPv4 3232235777 = asciiBytes "192.168.1.1" ∧
     ipv4ToLong (asciiBytes "192.168.1.1") = 3232235777 := by decide
+
+-- BEGIN wave-8 tie block (trans-strconv)
+/-! ### Regenerated tie (wave 8): `strz/std_strconv.go`, `strz/std_hex.go` translated by `go2lean`
+
+`Golib.Gen.Trans.C15.*` is regenerated from the tree under verification on every run
+(`Golib/Gen/TransC15.lean`); these theorems are re-checked against what the code says now.
+The models above use `Nat` bytes, the translation `BitVec 8`: the abstraction function is
+`BitVec.toNat` / `BitVec.ofNat 8`, written out in every statement. -/
+
+/-- TIE: the translated `lower` (`c | 32`) is the model's `lower` on EVERY byte; it cannot panic. -/
+theorem c15_trans_lower (c : BitVec 8) :
+    Golib.Gen.Trans.C15.lower c = .ok (BitVec.ofNat 8 (Golib.C15.lower c.toNat)) :=
+  trans_lower_eq c
+
+/-- TIE: the translated `fromHexChar` is the model's `fromHexChar` on EVERY byte: `(v, true)` where
+the model answers `some v`, `(0, false)` where it answers `none`; it cannot panic. -/
+theorem c15_trans_fromHexChar (c : BitVec 8) :
+    Golib.Gen.Trans.C15.fromHexChar c = .ok (hexCharPair (Golib.C15.fromHexChar c.toNat)) :=
+  trans_fromHexChar_eq c
+
+/-- Non-vacuity: `'F'` is 15, `'g'` is rejected, `lower('X') = 'x'`. -/
+example : Golib.Gen.Trans.C15.fromHexChar 70#8 = .ok (15#8, true) ∧
+    Golib.Gen.Trans.C15.fromHexChar 103#8 = .ok (0#8, false) ∧
+    Golib.Gen.Trans.C15.lower 88#8 = .ok 120#8 := by
+  refine ⟨?_, ?_, ?_⟩ <;> decide +kernel
+-- END wave-8 tie block (trans-strconv)
 
 end Golib.C15
